@@ -291,7 +291,7 @@ def run_fresnel(case, seed, R):
 # ---------------------------------------------------------------------------------------------
 # unit: scalar stacks -- reference equality + energy
 
-def judge_stack(R, case, ent, n0, lam, absorbing, gain):
+def judge_stack(R, case, ent, n0, lam, absorbing, gain, pols='sp'):
     aois = [(nm, a) for nm, a in resolve_aois(n0, ent) if below_tir(n0, a, ent[-1][0])]
     if len(aois) < len(AOIS):
         R.outcome('some-aoi-beyond-tir-excluded')
@@ -299,8 +299,8 @@ def judge_stack(R, case, ent, n0, lam, absorbing, gain):
         return
     av = np.array([a for _, a in aois])
     sub_abs = complex(ent[-1][0]).imag != 0
-    for pol in 'sp':
-        ref = ref_rt(n0, ent, lam, av, pol)
+    for pol in pols:                      # the argument form given to the library ('p', 'P', 's', 'S'); the reference takes its meaning
+        ref = ref_rt(n0, ent, lam, av, pol.lower())
         for k, (nm, aoi) in enumerate(aois):
             sig = f'stack:{pol}:{amb_tag(n0)}' + (':absorbing' if absorbing or gain else '')
             rt = lib_rt(R, ent, lam, pol, aoi, n0, sig)
@@ -326,7 +326,7 @@ def judge_stack(R, case, ent, n0, lam, absorbing, gain):
             else:
                 R.expect(abs(Rr + Tt - 1) <= etol, sig + ':energy', f'R+T = {Rr + Tt!r} != 1 (lossless), aoi={aoi} R={Rr!r} T={Tt!r}')
                 R.outcome('lossless')
-            if nm == 'B' and pol == 'p' and len(ent) == 1 and not sub_abs:
+            if nm == 'B' and pol.lower() == 'p' and len(ent) == 1 and not sub_abs:
                 R.expect_close(r, 0.0, tol, 'stack:p:brewster', f'r_p of a bare interface at its Brewster angle {aoi}')
     R.nontrivial(any(complex(n) != n0 for n, _ in ent))
 
@@ -337,7 +337,7 @@ def run_stack(case, seed, R):
     codes = [c if isinstance(c, str) else '' for c, _ in case['layers']] + [case['sub'] if isinstance(case['sub'], str) else '']
     gain = any(c.endswith('*') for c in codes if c)
     absorbing = any(c and not c.endswith('*') for c in codes)
-    judge_stack(R, case, ent, n0, lam, absorbing, gain)
+    judge_stack(R, case, ent, n0, lam, absorbing, gain, pols=case.get('pols', 'sp'))
 
 
 # ---------------------------------------------------------------------------------------------
@@ -392,8 +392,13 @@ POOL_N = N_IDX + ['a']
 
 
 def batch_entries(case, seed):
-    """Per batch element k: entries; layer j of element k takes alphabet cell (off + a*k + b*j) -- all different along the batch."""
+    """Per batch element k: entries; layer j of element k takes alphabet cell (off + a*k + b*j) -- all different along the batch.
+
+    case['vary']: 'both' (index and thickness change along the batch), 'thickness' (indices as in element 0: a thickness map
+    of fixed materials) or 'index' (thicknesses as in element 0: an index / dispersion sweep at fixed geometry).
+    """
     shape, L, off, lam = case['shape'], case['L'], case['off'], case['lam']
+    vary = case.get('vary', 'both')
     nb = int(np.prod(shape))
     rng = np.random.default_rng([int(seed), 17, off, L, nb])
     per = []
@@ -409,6 +414,10 @@ def batch_entries(case, seed):
             if j == L:   # exit medium: transparent, dense enough that every aoi below is under its critical angle
                 n = [1.5, 2.3, 1.38][(off + k) % 3] if not case['generic'] else 1.4 + rng.random()
                 d = [0.0, 0.137][(off + k) % 2]
+            if k > 0 and vary == 'thickness':
+                n = per[0][j][0]
+            if k > 0 and vary == 'index':
+                d = per[0][j][1]
             ent.append((n, d))
         per.append(ent)
     return per
@@ -424,7 +433,7 @@ def run_batch(case, seed, R):
     sq = 'square' if nb == L + 1 else ('nb=1' if nb == 1 else 'nonsquare')
     for aoi in case['aois']:
         for pol in 'sp':
-            sig = f'batch:{len(shape)}d:{sq}:{pol}'
+            sig = f'batch:{len(shape)}d:{sq}:{pol}' + ('' if case.get('vary', 'both') == 'both' else f":vary-{case['vary']}")
             loop_r, loop_t, tols = [], [], []
             for k in range(nb):
                 rt = lib_rt(R, per[k], lam, pol, aoi, n0, 'batch:loop-element')
@@ -477,6 +486,8 @@ def plan(tier, seed):
                 for amb in AMBS:
                     for lam in (LAMS if L < Lmax else [0.55]):
                         stacks.append({'layers': [list(c) for c in combo], 'sub': sub, 'amb': amb, 'lam': lam})
+                        if L <= 1:
+                            stacks[-1]['pols'] = 'spSP'
     # exit-medium thickness variants (phase of t only) for short stacks
     for L in range(0, 2):
         for combo in itertools.product(layer_cells, repeat=L):
@@ -517,10 +528,15 @@ def plan(tier, seed):
             for off in range(0, 20 if not quick else 8):
                 for amb in AMBS:
                     for absorbing in (False, True):
-                        batch.append({'shape': shape, 'L': L, 'off': off, 'amb': amb, 'lam': LAMS[off % 2], 'absorbing': absorbing,
-                                      'generic': False, 'aois': [0, 45, 60] if amb == 1.33 else [0, 10, 80, 89]})
+                        for vary in ('both', 'thickness', 'index'):
+                            if vary != 'both' and (int(np.prod(shape)) == 1 or off >= (4 if quick else 8)):
+                                continue
+                            batch.append({'shape': shape, 'L': L, 'off': off, 'amb': amb, 'lam': LAMS[off % 2], 'absorbing': absorbing, 'vary': vary,
+                                          'generic': False, 'aois': ([0, 45, 60] if amb == 1.33 else [0, 10, 80, 89]) if vary == 'both' else [0, 45]})
             for amb in AMBS:
-                batch.append({'shape': shape, 'L': L, 'off': 0, 'amb': amb, 'lam': 0.55, 'absorbing': True, 'generic': True, 'aois': [0, 45]})
+                for vary in ('both', 'thickness', 'index'):
+                    if vary == 'both' or int(np.prod(shape)) > 1:
+                        batch.append({'shape': shape, 'L': L, 'off': 0, 'amb': amb, 'lam': 0.55, 'absorbing': True, 'generic': True, 'vary': vary, 'aois': [0, 45]})
     aoitxt = '{0,10,45,60,80,89 deg, Brewster angle of the first interface}'
     return [
         ScopeUnit('fresnel', fres, run_fresnel,
@@ -529,7 +545,7 @@ def plan(tier, seed):
                   '(exit-medium thickness in {0, l/4n, l/2n, 0.137}) against both the closed forms and the library Fresnel functions; non-trivial when n0 != n1'),
         ScopeUnit('stacks', stacks, run_stack,
                   f'EVERY stack of 0..{Lmax} layers over indices {{1,1.38,1.5,2.3}} x thicknesses {{0, l/4n, l/2n, 0.137}} x exit medium {{1.5,1,2.3}} x ambient {{1,1.33}} x '
-                  f'wavelength {{0.55,1.0}} ({Lmax}-layer stacks: 0.55 only), each at aoi in {aoitxt} (those below the critical angle of the exit medium; layers may be evanescent) x pol {{s,p}}: '
+                  f'wavelength {{0.55,1.0}} ({Lmax}-layer stacks: 0.55 only), each at aoi in {aoitxt} (those below the critical angle of the exit medium; layers may be evanescent) x pol {{s,p}} (0- and 1-layer stacks: argument forms s, p, S, P): '
                   'r and t complex-equal to an independent admittance-form characteristic-matrix reference, and R + (n_s cos th_s / n_0 cos th_0)|t|^2 = 1; '
                   'because thickness 0 and l/2n are in the alphabet this also covers zero-thickness and normal-incidence absentee layers at every position'),
         ScopeUnit('absorbing', absorb, run_stack,
@@ -541,6 +557,6 @@ def plan(tier, seed):
                   'a half-wave-at-that-angle absentee (d = l / (2 n cos th), skipped when evanescent) leaves R, |t|^2 and r unchanged; all aoi x pol'),
         ScopeUnit('batch', batch, run_batch,
                   'array-valued index/thickness of shapes {(2,),(3,),(2,3),(2,1,2),(1,),(1,1)' + ('' if quick else ',(4,1)') + f'}} x 0..{3 if quick else 4} layers x 8+ alphabet offsets (every batch element a different stack, '
-                  'different along the batch and across layers, so batch size == entry count ("square") and != are both present) x real/complex x list-of-pairs and ndarray input forms x aoi x pol: '
+                  'different along the batch and across layers, so batch size == entry count ("square") and != are both present) x real/complex x what varies along the batch {index and thickness, thickness only (fixed materials), index only (fixed thicknesses)} x list-of-pairs and ndarray input forms x aoi x pol: '
                   'batched r, t entry-wise equal to the per-element loop; plus one seeded generic representative per shape/length'),
     ]
